@@ -13,7 +13,15 @@ Definition wv (c : conn) :=
 
 Definition has_stop (o : list obs) : Prop := exists b, In (OStop b) o.
 
-Record S (c c' : conn) (o : list obs) : Prop := {
+(* inversion without normalising the (large) terms involved *)
+Lemma some_inj {A} (a b : A) : Some a = Some b -> a = b.
+Proof. intro H. injection H as H. exact H. Qed.
+Lemma pair_inv {A B} (a c : A) (b d : B) : (a, b) = (c, d) -> a = c /\ b = d.
+Proof. intro H. injection H as H1 H2. auto. Qed.
+Lemma some_pair_inv {A B} (a c : A) (b d : B) : Some (a, b) = Some (c, d) -> a = c /\ b = d.
+Proof. intro H. apply some_inj in H. apply pair_inv in H. exact H. Qed.
+
+Record Mv (c c' : conn) (o : list obs) : Prop := {
   s_ps : pc (t_start c') = pc (t_start c);
   s_pf : pc (t_finish c') = pc (t_finish c);
   s_tr : transport c = TNone -> transport c' = TNone;
@@ -22,12 +30,12 @@ Record S (c c' : conn) (o : list obs) : Prop := {
   s_cs : (cs c' = cs c /\ is_connected c' = is_connected c /\ on_stop_armed c' = on_stop_armed c /\ handshake_complete c' = handshake_complete c) \/
          (cs c <> Closed /\ cs c' = Closed /\ (is_connected c = true -> on_stop_armed c = true -> has_stop o)) }.
 
-Lemma S_wv c c' o : wv c' = wv c -> S c c' o.
+Lemma S_wv c c' o : wv c' = wv c -> Mv c c' o.
 Proof.
   unfold wv. intro E. injection E as E1 E2 E3 E4 E5 E6 E7 E8 E9.
   constructor; try congruence. left. auto.
 Qed.
-Lemma S_refl c o : S c c o.
+Lemma S_refl c o : Mv c c o.
 Proof. apply S_wv. reflexivity. Qed.
 
 Lemma has_stop_l a b : has_stop a -> has_stop (a ++ b).
@@ -35,7 +43,7 @@ Proof. intros [x H]. exists x. apply in_or_app. auto. Qed.
 Lemma has_stop_r a b : has_stop b -> has_stop (a ++ b).
 Proof. intros [x H]. exists x. apply in_or_app. auto. Qed.
 
-Lemma S_trans c c1 c2 o1 o2 : S c c1 o1 -> S c1 c2 o2 -> S c c2 (o1 ++ o2).
+Lemma S_trans c c1 c2 o1 o2 : Mv c c1 o1 -> Mv c1 c2 o2 -> Mv c c2 (o1 ++ o2).
 Proof.
   intros [A1 A2 A3 A4 A5 A6] [B1 B2 B3 B4 B5 B6]. constructor; try congruence; auto.
   destruct A6 as [(Ea & Eb & Ec & Ed)|(Na & Ca & Ha)]; destruct B6 as [(Fa & Fb & Fc & Fd)|(Nb & Cb & Hb)].
@@ -44,11 +52,11 @@ Proof.
   - right. repeat split; try congruence. intros H1 H2. apply has_stop_l. auto.
   - contradiction.
 Qed.
-Lemma S_obs_l c c' o o0 : S c c' o -> S c c' (o0 ++ o).
+Lemma S_obs_l c c' o o0 : Mv c c' o -> Mv c c' (o0 ++ o).
 Proof. intro H. apply (S_trans c c c' o0 o (S_refl c o0) H). Qed.
-Lemma S_obs_r c c' o o2 : S c c' o -> S c c' (o ++ o2).
+Lemma S_obs_r c c' o o2 : Mv c c' o -> Mv c c' (o ++ o2).
 Proof. intro H. apply (S_trans c c' c' o o2 H (S_refl c' o2)). Qed.
-Lemma S_weaken c c' o : S c c' [] -> S c c' o.
+Lemma S_weaken c c' o : Mv c c' [] -> Mv c c' o.
 Proof. intro H. exact (S_obs_r c c' [] o H). Qed.
 
 Ltac dm := match goal with |- context [match ?x with _ => _ end] =>
@@ -57,12 +65,12 @@ Ltac dm := match goal with |- context [match ?x with _ => _ end] =>
 Ltac Ssame := constructor; cbn in *; try congruence; auto; try (left; repeat split; (reflexivity || congruence)).
 
 (* ---- the synchronous functions ---- *)
-Lemma wv_helper_close c : S c (fst (helper_close c)) (snd (helper_close c)).
+Lemma wv_helper_close c : Mv c (fst (helper_close c)) (snd (helper_close c)).
 Proof.
   unfold helper_close. repeat dm; cbn [fst snd]; Ssame.
 Qed.
 
-Lemma S_release c : S c (fst (release_resources c)) (snd (release_resources c)).
+Lemma S_release c : Mv c (fst (release_resources c)) (snd (release_resources c)).
 Proof.
   unfold release_resources.
   destruct (helper c).
@@ -98,7 +106,7 @@ Lemma cleanup_open c : cs c <> Closed ->
               else (c4, o).
 Proof. intro H. unfold cleanup, pre_close. destruct (cs c); try reflexivity. contradiction. Qed.
 
-Lemma S_cleanup c : S c (fst (cleanup c)) (snd (cleanup c)).
+Lemma S_cleanup c : Mv c (fst (cleanup c)) (snd (cleanup c)).
 Proof.
   destruct (cs c) eqn:Ecs; try (unfold cleanup; rewrite Ecs; apply S_release).
   all: rewrite cleanup_open by congruence;
@@ -114,19 +122,19 @@ Proof.
     rewrite Earm, Ha, Hc in Ef; discriminate.
 Qed.
 
-Lemma S_report_fatal c e : S c (fst (report_fatal c e)) (snd (report_fatal c e)).
+Lemma S_report_fatal c e : Mv c (fst (report_fatal c e)) (snd (report_fatal c e)).
 Proof.
   unfold report_fatal. destruct (fatal c); [apply S_cleanup|].
   pose proof (S_cleanup (c <| fatal := Some e |>)) as H. destruct H as [A1 A2 A3 A4 A5 A6]. constructor; auto.
 Qed.
 
-Lemma S_helper_error c e : S c (fst (helper_error c e)) (snd (helper_error c e)).
+Lemma S_helper_error c e : Mv c (fst (helper_error c e)) (snd (helper_error c e)).
 Proof.
   unfold helper_error. destruct (ready c); try apply S_report_fatal.
   pose proof (S_report_fatal (c <| ready := RExc e |>) e) as H. destruct H as [A1 A2 A3 A4 A5 A6]. constructor; auto.
 Qed.
 
-Lemma S_send_messages c tys : S c (fst (fst (send_messages c tys))) (snd (fst (send_messages c tys))).
+Lemma S_send_messages c tys : Mv c (fst (fst (send_messages c tys))) (snd (fst (send_messages c tys))).
 Proof.
   unfold send_messages. destruct (negb (handshake_complete c)); [apply S_refl|].
   destruct (write_fails c).
@@ -149,12 +157,12 @@ Proof. induction l as [|a l IH]; intro c; cbn; [reflexivity|]. rewrite IH. apply
 Lemma wv_fold_remove l h : forall c, wv (fold_left (fun a ty => remove_handler a ty h) l c) = wv c.
 Proof. induction l as [|a l IH]; intro c; cbn; [reflexivity|]. rewrite IH. apply wv_remove_handler. Qed.
 
-Lemma S_call_handler c h m : S c (fst (fst (call_handler c h m))) (snd (fst (call_handler c h m))).
+Lemma S_call_handler c h m : Mv c (fst (fst (call_handler c h m))) (snd (fst (call_handler c h m))).
 Proof.
   destruct h; cbn [call_handler].
   - set (c1 := c <| expected_disconnect := true |>).
     pose proof (S_send_messages c1 [T_DISC_RESP]) as H1. destruct (send_messages c1 [T_DISC_RESP]) as [[c2 o2] ex]. cbn [fst snd] in H1.
-    assert (H0 : S c c1 []) by (apply S_wv; reflexivity).
+    assert (H0 : Mv c c1 []) by (apply S_wv; reflexivity).
     destruct ex; cbn [fst snd].
     + exact (S_trans _ _ _ _ _ H0 H1).
     + pose proof (S_cleanup c2) as H2. destruct (cleanup c2) as [c3 o3]. cbn [fst snd] in *.
@@ -165,7 +173,7 @@ Proof.
   - cbn [fst snd]. apply S_wv. apply wv_fold_actions.
 Qed.
 
-Lemma S_run_handlers hs m : forall c, S c (fst (fst (run_handlers c hs m))) (snd (fst (run_handlers c hs m))).
+Lemma S_run_handlers hs m : forall c, Mv c (fst (fst (run_handlers c hs m))) (snd (fst (run_handlers c hs m))).
 Proof.
   induction hs as [|h hs IH]; intro c; cbn [run_handlers]; [apply S_refl|].
   pose proof (S_call_handler c h m) as H1. destruct (call_handler c h m) as [[c1 o1] ex]. cbn [fst snd] in H1.
@@ -174,10 +182,10 @@ Proof.
   exact (S_trans _ _ _ _ _ H1 IH).
 Qed.
 
-Lemma S_process_packet c m : S c (fst (fst (process_packet c m))) (snd (fst (process_packet c m))).
+Lemma S_process_packet c m : Mv c (fst (fst (process_packet c m))) (snd (fst (process_packet c m))).
 Proof.
   unfold process_packet.
-  assert (K : S c (fst (fst (if negb (registered (m_ty m)) then (c, [], None)
+  assert (K : Mv c (fst (fst (if negb (registered (m_ty m)) then (c, [], None)
                              else if negb (m_valid m) then let '(c1, o) := report_fatal c (Lib LProtocol) in (c1, o, Some (Raw ROther))
                              else run_handlers (c <| pong_timer := None |> <| send_pending_ping := false |>)
                                     (map snd (filter (fun p => N.eqb (fst p) (m_ty m)) (handlers (c <| pong_timer := None |> <| send_pending_ping := false |>)))) m)))
@@ -194,7 +202,7 @@ Proof.
   destruct (cs c); try exact K. apply S_refl.
 Qed.
 
-Lemma S_data_loop items : forall c, S c (fst (fst (data_loop c items))) (snd (fst (data_loop c items))).
+Lemma S_data_loop items : forall c, Mv c (fst (fst (data_loop c items))) (snd (fst (data_loop c items))).
 Proof.
   induction items as [|[m|req] items IH]; intro c; cbn [data_loop]; [apply S_refl| |].
   - pose proof (S_process_packet c m) as H1. destruct (process_packet c m) as [[c1 o1] ex]. cbn [fst snd] in H1.
@@ -204,11 +212,11 @@ Proof.
 Qed.
 
 Lemma S_call_begin c owner send types ap st tmo :
-  S c (fst (fst (fst (call_begin c owner send types ap st tmo)))) (snd (fst (fst (call_begin c owner send types ap st tmo)))).
+  Mv c (fst (fst (fst (call_begin c owner send types ap st tmo)))) (snd (fst (fst (call_begin c owner send types ap st tmo)))).
 Proof.
   unfold call_begin. pose proof (S_send_messages c send) as H. destruct (send_messages c send) as [[c1 o1] ex]. cbn [fst snd] in H.
   destruct ex; cbn [fst snd]; [exact H|].
-  match goal with |- S c (fold_left ?f types ?x) o1 => assert (E : wv (fold_left f types x) = wv c1) by (rewrite wv_fold_add; reflexivity) end.
+  match goal with |- Mv c (fold_left ?f types ?x) o1 => assert (E : wv (fold_left f types x) = wv c1) by (rewrite wv_fold_add; reflexivity) end.
   destruct H as [A1 A2 A3 A4 A5 A6]. unfold wv in E. injection E as E1 E2 E3 E4 E5 E6 E7 E8 E9.
   constructor; try congruence;
     try (intro Q; first [rewrite E6; auto; fail|rewrite E7; auto; fail|rewrite E8; auto; fail]);
@@ -250,8 +258,8 @@ Qed.
 Lemma Inv_closed_timers c : Inv c -> cs c = Closed -> ping_timer c = None /\ pong_timer c = None.
 Proof. intros (_ & _ & _ & C) Hc. destruct (C Hc) as (A & B & _). exact (conj A B). Qed.
 
-(* an S-move keeps the invariant *)
-Lemma S_WI c c' o : WI c -> Inv c' -> S c c' o -> WI c'.
+(* an Mv-move keeps the invariant *)
+Lemma S_WI c c' o : WI c -> Inv c' -> Mv c c' o -> WI c'.
 Proof.
   intros (I & T & P & G) I' [A1 A2 A3 A4 A5 A6]. split; [exact I'|]. split; [|split].
   - unfold TK in *. rewrite A2. destruct T as [T|[T|[T|T]]]; auto.
@@ -265,8 +273,8 @@ Proof.
   - unfold GK in *. intro H. rewrite A2. apply G. destruct A6 as [(E & _)|(_ & E & _)]; congruence.
 Qed.
 
-(* an S-move that closes the connection: the stop callback fired, or a connect task is in flight, or nothing of a session existed *)
-Lemma S_NC c c' o : WI c -> S c c' o -> cs c' = Closed -> (cs c <> Closed \/ SF c = true) ->
+(* an Mv-move that closes the connection: the stop callback fired, or a connect task is in flight, or nothing of a session existed *)
+Lemma S_NC c c' o : WI c -> Mv c c' o -> cs c' = Closed -> (cs c <> Closed \/ SF c = true) ->
   SF c' = true \/ has_stop o \/
   ((cs c = Init \/ cs c = SockOpen) /\ transport c = TNone /\ ping_timer c = None /\ pong_timer c = None /\ handshake_complete c = false).
 Proof.
@@ -290,7 +298,7 @@ Qed.
 Definition eqv (x c' : conn) : Prop :=
   cs c' = cs x /\ transport c' = transport x /\ pc (t_finish c') = pc (t_finish x) /\ ping_timer c' = ping_timer x /\ pong_timer c' = pong_timer x.
 
-Lemma S_WI2 c x c' o : WI c -> S c x o -> eqv x c' -> Inv c' -> WI c'.
+Lemma S_WI2 c x c' o : WI c -> Mv c x o -> eqv x c' -> Inv c' -> WI c'.
 Proof.
   intros (I & T & P & G) [A1 A2 A3 A4 A5 A6] (E1 & E2 & E3 & E4 & E5) I'. split; [exact I'|]. split; [|split].
   - unfold TK in *. rewrite E1, E2, E3, A2. destruct T as [T|[T|[T|T]]]; auto.
@@ -322,18 +330,23 @@ Proof. intros H _ _. right. exact H. Qed.
 
 Lemma Clr_stop o : has_stop o -> Clr o. Proof. intro H. left. exact H. Qed.
 
-(* an S-move whose enabling condition rules out "nothing of a session existed" *)
-Lemma S_step c c' o : WI c -> Inv c' -> S c c' o ->
-  (transport c <> TNone \/ ping_timer c <> None \/ pong_timer c <> None \/ handshake_complete c = true \/ In (OTaskDone TDisc TOk) o \/ cs c' <> Closed) ->
+(* an Mv-move; when it closes the connection, its enabling condition rules out "nothing of a session existed" *)
+Lemma S_step c c' o : WI c -> Inv c' -> Mv c c' o ->
+  (cs c <> Closed -> cs c' = Closed ->
+   transport c <> TNone \/ ping_timer c <> None \/ pong_timer c <> None \/ handshake_complete c = true \/ In (OTaskDone TDisc TOk) o) ->
   WI c' /\ NC c c' o.
 Proof.
   intros W I' HS En. split; [exact (S_WI c c' o W I' HS)|].
-  intros Hc Hpre. destruct (S_NC c c' o W HS Hc Hpre) as [H|[H|(_ & Q1 & Q2 & Q3 & Q4)]]; [left; exact H|right; left; exact H|].
-  destruct En as [E|[E|[E|[E|[E|E]]]]]; try contradiction; try congruence.
-  right. right. right. right. exact E.
+  intros Hc Hpre.
+  destruct (SF c) eqn:Es.
+  - left. unfold SF in *. destruct HS as [A1 A2 _ _ _ _]. rewrite A1, A2. exact Es.
+  - destruct Hpre as [Hn|Hn]; [|discriminate].
+    destruct (S_NC c c' o W HS Hc (or_introl Hn)) as [H|[H|(_ & Q1 & Q2 & Q3 & Q4)]]; [left; exact H|right; left; exact H|].
+    destruct (En Hn Hc) as [E|[E|[E|[E|E]]]]; try contradiction; try congruence.
+    right. right. right. right. exact E.
 Qed.
 
-Lemma S_transport c t o : transport c <> TNone -> t <> TNone -> S c (c <| transport := t |>) o.
+Lemma S_transport c t o : transport c <> TNone -> t <> TNone -> Mv c (c <| transport := t |>) o.
 Proof. intros H Ht. constructor; cbn; auto; try contradiction; try (intro Q; contradiction). Qed.
 
 Lemma send_nohs c tys : handshake_complete c = false -> send_messages c tys = (c, [], Some (Lib LNotEstablished)).
@@ -428,27 +441,46 @@ Proof.
   - apply NC_same; [unfold start_tcp_attempt; cbn; exact E1|]. intros _. unfold SF, start_tcp_attempt. cbn. reflexivity.
 Qed.
 
+Lemma cs_set_start_future x : cs (set_start_future x) = cs x.
+Proof. unfold set_start_future. destruct (start_fut x); reflexivity. Qed.
+Lemma cs_set_finish_future x : cs (set_finish_future x) = cs x.
+Proof. unfold set_finish_future. destruct (finish_fut x); reflexivity. Qed.
+
+(* the fields the invariant reads, of a state *)
+Definition fld (c : conn) := (cs c, transport c, pc (t_finish c), ping_timer c, pong_timer c).
+Lemma WI_open c' s tr pf pi po : Inv c' -> fld c' = (s, tr, pf, pi, po) ->
+  (tr = TNone \/ running_f pf = true \/ s = Connected \/ s = Closed) -> ((pi <> None \/ po <> None) -> s = Connected) -> (s = HsDone -> running_f pf = true) -> WI c'.
+Proof.
+  unfold fld. intros I' E HT HP HG. injection E as E1 E2 E3 E4 E5. split; [exact I'|]. unfold TK, PK, GK. rewrite E1, E2, E3, E4, E5. auto.
+Qed.
+
+Lemma start_success_cases x :
+  (cs (fst (start_success x)) = Closed /\ exists e, In (OTaskDone TStart (TRaise e)) (snd (start_success x))) \/
+  (cs x <> Closed /\ fld (fst (start_success x)) = (SockOpen, transport x, pc (t_finish x), ping_timer x, pong_timer x)).
+Proof.
+  unfold start_success. set (c1 := x <| socket := true |> <| sock_obj := false |> <| intr_start := IExited |> <| conn_timer := None |>).
+  assert (Ecs : cs (set_start_future c1) = cs x) by (rewrite cs_set_start_future; reflexivity).
+  destruct (cs (set_start_future c1)) eqn:E0.
+  5: { pose proof (cleanup_cs (set_start_future c1)) as Hc. destruct (cleanup (set_start_future c1)) as [c3 o3]. cbn [fst] in Hc.
+       left. unfold finish_task. cbn [fst snd]. split; [exact Hc|]. eexists. apply in_or_app. right. left. reflexivity. }
+  all: right; (split; [rewrite <- Ecs; discriminate|]); unfold finish_task; cbn [fst]; unfold set_start_future; destruct (start_fut c1); reflexivity.
+Qed.
+
 Lemma leaf_start_success c x c' o : WI c -> running_s (pc (t_start c)) = true -> wv x = wv c ->
   start_success x = (c', o) -> Inv c' -> WI c' /\ NC c c' o.
 Proof.
   intros W Hr E Es I'. destruct W as (I & T & P & G).
   pose proof (wv_eqv x c E) as (E1 & E2 & E3 & E4 & E5).
-  unfold start_success in Es.
-  set (c1 := x <| socket := true |> <| sock_obj := false |> <| intr_start := IExited |> <| conn_timer := None |>) in *.
-  assert (Ec2 : cs (set_start_future c1) = cs x) by (unfold set_start_future; destruct (start_fut c1); reflexivity).
-  destruct (cs (set_start_future c1)) eqn:Ecs.
-  5: { (* closed in between *)
-       pose proof (cleanup_cs (set_start_future c1)) as Hc. destruct (cleanup (set_start_future c1)) as [c3 o3]. cbn [fst] in Hc.
-       injection Es as <- <-. split; [apply WI_closed; [exact I'|exact Hc]|].
-       apply NC_clr. right. left. eexists. apply in_or_app. right. left. reflexivity. }
-  all: injection Es as <- <-; assert (Hinit : cs c = Init) by
-         (destruct (JK_start_running c I Hr) as [Q|Q]; [exact Q|congruence]);
-       destruct (PK_not_connected c P ltac:(congruence)) as [Q1 Q2];
-       (split; [|apply NC_open; unfold set_start_future; destruct (start_fut c1); cbn; discriminate]);
-       (split; [exact I'|]); (split; [|split]).
-  all: unfold TK, PK, GK, set_start_future; destruct (start_fut c1); cbn; try (intro Q; discriminate Q).
-  all: try (intros [Q|Q]; exfalso; apply Q; congruence).
-  all: unfold TK in T; rewrite Hinit in T; destruct T as [T|[T|[T|T]]]; try discriminate; [left; congruence|right; left; congruence].
+  pose proof (start_success_cases x) as K. rewrite Es in K. cbn [fst snd] in K. destruct K as [(Hc & Ho)|(Hn & Hf)].
+  - split; [apply WI_closed; assumption|]. apply NC_clr. right. left. exact Ho.
+  - assert (Hinit : cs c = Init) by (destruct (JK_start_running c I Hr) as [Q|Q]; [exact Q|congruence]).
+    destruct (PK_not_connected c P ltac:(congruence)) as [Q1 Q2].
+    assert (Hcs' : cs c' = SockOpen) by (unfold fld in Hf; injection Hf as F1 _ _ _ _; exact F1).
+    split; [|apply NC_open; congruence].
+    apply (WI_open c' _ _ _ _ _ I' Hf).
+    + unfold TK in T. rewrite Hinit in T. destruct T as [T|[T|[T|T]]]; try discriminate; [left; congruence|right; left; congruence].
+    + intros [Q|Q]; exfalso; apply Q; congruence.
+    + discriminate.
 Qed.
 
 Lemma wake_start_W c c' o : WI c -> wake_start c = Some (c', o) -> Inv c' -> WI c' /\ NC c c' o.
@@ -460,24 +492,24 @@ Proof.
     pose proof (wv_take_cancel c TStart) as H1. destruct (take_cancel c TStart) as [c1 mc]. cbn [fst] in H1.
     assert (Hr : running_s (pc (t_start c)) = true) by (rewrite Ep; reflexivity).
     match type of E with match ?d with _ => _ end = _ => destruct d as [|e] end.
-    + injection E as <- <-. eapply leaf_tcp; [exact W| |exact I'|reflexivity]. rewrite <- H1. reflexivity.
+    + apply some_pair_inv in E. destruct E as [<- <-]. eapply leaf_tcp; [exact W| |exact I'|reflexivity]. rewrite <- H1. reflexivity.
     + match type of E with context [timeout_exit ?x TStart e] => pose proof (wv_timeout_exit x TStart e) as H2; destruct (timeout_exit x TStart e) as [c2 e1] end.
-      injection E as E. eapply leaf_start_fail; [|exact I']. symmetry in E. apply surjective_pairing_eq. exact E.
+      apply some_inj in E. eapply leaf_start_fail; [exact E|exact I'].
   - (* awaiting a TCP attempt *)
     destruct (must_cancel (t_start c) || negb match do_connect c with EPending => true | _ => false end); [|discriminate].
     pose proof (wv_take_cancel c TStart) as H1. destruct (take_cancel c TStart) as [c1 mc]. cbn [fst] in H1.
     assert (Hr : running_s (pc (t_start c)) = true) by (rewrite Ep; reflexivity).
     match type of E with match ?d with _ => _ end = _ => destruct d as [|e] end.
-    + injection E as E. eapply leaf_start_success; [exact W|exact Hr| |apply surjective_pairing_eq; symmetry; exact E|exact I'].
+    + apply some_inj in E. eapply leaf_start_success; [exact W|exact Hr| |exact E|exact I'].
       rewrite <- H1. reflexivity.
     + match type of E with context [timeout_exit ?x TStart e] => pose proof (wv_timeout_exit x TStart e) as H2; destruct (timeout_exit x TStart e) as [c2 e1] end.
       cbn [fst] in H2.
       destruct (is_oserror e1).
       * destruct groups as [|[|g']].
-        -- injection E as E. eapply leaf_start_fail; [|exact I']. apply surjective_pairing_eq. symmetry. exact E.
-        -- injection E as E. eapply leaf_start_fail; [|exact I']. apply surjective_pairing_eq. symmetry. exact E.
-        -- injection E as <- <-. eapply leaf_tcp; [exact W| |exact I'|reflexivity]. rewrite H2, <- H1. reflexivity.
-      * injection E as E. eapply leaf_start_fail; [|exact I']. apply surjective_pairing_eq. symmetry. exact E.
+        -- apply some_inj in E. eapply leaf_start_fail; [exact E|exact I'].
+        -- apply some_inj in E. eapply leaf_start_fail; [exact E|exact I'].
+        -- apply some_pair_inv in E. destruct E as [<- <-]. eapply leaf_tcp; [exact W| |exact I'|reflexivity]. rewrite H2, <- H1. reflexivity.
+      * apply some_inj in E. eapply leaf_start_fail; [exact E|exact I'].
 Qed.
 
 (* ---- finish_connection ---- *)
@@ -493,46 +525,74 @@ Proof. unfold internal_handlers. rewrite !wv_add_handler. reflexivity. Qed.
 Lemma wv_internal_handlers_pf c : pc (t_finish (internal_handlers c)) = pc (t_finish c).
 Proof. pose proof (wv_internal_handlers c) as E. unfold wv in E. injection E as E1 E2 E3 E4 E5 E6 E7 E8 E9. exact E5. Qed.
 Lemma wv_internal_handlers_pi c : ping_timer (internal_handlers c) = ping_timer c.
-Proof. pose proof (wv_internal_handlers c) as E. unfold wv in E. injection E as E1 E2 E3 E4 E5 E6 E7 E8 E9. exact E3. Qed.
+Proof. pose proof (wv_internal_handlers c) as E. unfold wv in E. injection E as E1 E2 E3 E4 E5 E6 E7 E8 E9. exact E7. Qed.
 Lemma wv_internal_handlers_po c : pong_timer (internal_handlers c) = pong_timer c.
-Proof. pose proof (wv_internal_handlers c) as E. unfold wv in E. injection E as E1 E2 E3 E4 E5 E6 E7 E8 E9. exact E2. Qed.
+Proof. pose proof (wv_internal_handlers c) as E. unfold wv in E. injection E as E1 E2 E3 E4 E5 E6 E7 E8 E9. exact E8. Qed.
 
-Lemma leaf_finish_success c x c' o : wv x = wv c -> finish_success x = (c', o) -> Inv c' -> WI c' /\ NC c c' o.
+Lemma WI_connected c : Inv c -> cs c = Connected -> WI c.
 Proof.
-  intros E Es I'. unfold finish_success in Es.
-  set (c1 := x <| intr_finish := IExited |>) in *.
-  destruct (cs (set_finish_future c1)) eqn:Ecs.
+  intros I Hc. split; [exact I|]. split; [|split].
+  - right. right. left. exact Hc.
+  - intros _. exact Hc.
+  - intro H. congruence.
+Qed.
+Lemma WI_running c : Inv c -> running_f (pc (t_finish c)) = true -> ping_timer c = None -> pong_timer c = None -> WI c.
+Proof.
+  intros I Hr Q1 Q2. split; [exact I|]. split; [|split].
+  - right. left. exact Hr.
+  - intros [Q|Q]; contradiction.
+  - intros _. exact Hr.
+Qed.
+
+Lemma finish_success_cases x :
+  (cs (fst (finish_success x)) = Closed /\ exists e, In (OTaskDone TFinish (TRaise e)) (snd (finish_success x))) \/
+  cs (fst (finish_success x)) = Connected.
+Proof.
+  unfold finish_success. set (c1 := x <| intr_finish := IExited |>).
+  destruct (cs (set_finish_future c1)) eqn:E0.
   5: { pose proof (cleanup_cs (set_finish_future c1)) as Hc. destruct (cleanup (set_finish_future c1)) as [c3 o3]. cbn [fst] in Hc.
-       injection Es as <- <-. split; [apply WI_closed; [exact I'|exact Hc]|].
-       apply NC_clr. right. right. left. eexists. apply in_or_app. right. left. reflexivity. }
-  all: injection Es as <- <-; (split; [|apply NC_open; cbn; discriminate]);
-       (split; [exact I'|]); (split; [|split]); unfold TK, PK, GK; cbn; auto; try (intro Q; discriminate Q).
+       left. unfold finish_task. cbn [fst snd]. split; [exact Hc|]. eexists. apply in_or_app. right. left. reflexivity. }
+  all: right; unfold finish_task; cbn [fst]; unfold set_finish_future; destruct (finish_fut c1); reflexivity.
+Qed.
+
+Lemma leaf_finish_success c x c' o : finish_success x = (c', o) -> Inv c' -> WI c' /\ NC c c' o.
+Proof.
+  intros Es I'. pose proof (finish_success_cases x) as K. rewrite Es in K. cbn [fst snd] in K. destruct K as [(Hc & Ho)|Hc].
+  - split; [apply WI_closed; assumption|]. apply NC_clr. right. right. left. exact Ho.
+  - split; [apply WI_connected; assumption|]. apply NC_open. congruence.
+Qed.
+
+(* finish_after_ready on an open connection: it fails (closed, error reported), or the task goes on waiting for the hello answers *)
+Lemma finish_after_ready_cases x : cs x = SockOpen ->
+  (cs (fst (finish_after_ready x)) = Closed /\ exists e, In (OTaskDone TFinish (TRaise e)) (snd (finish_after_ready x))) \/
+  (running_f (pc (t_finish (fst (finish_after_ready x)))) = true /\
+   (ping_timer x = None -> ping_timer (fst (finish_after_ready x)) = None) /\ (pong_timer x = None -> pong_timer (fst (finish_after_ready x)) = None)).
+Proof.
+  intro Hso. unfold finish_after_ready. set (c0 := x <| hs_timer := None |>).
+  assert (Ec0 : cs c0 = SockOpen) by exact Hso. rewrite Ec0.
+  match goal with |- context [call_begin ?a ?b ?d ?e ?f ?g ?h] =>
+    pose proof (S_call_begin a b d e f g h) as HS; destruct (call_begin a b d e f g h) as [[[c2 o2] ex] cid] end.
+  cbn [fst snd] in HS. destruct ex as [e|].
+  - left. pose proof (finish_fail_cs c2 e) as Hc. pose proof (finish_fail_obs c2 e) as [e' Ho]. destruct (finish_fail c2 e) as [c3 o3]. cbn [fst snd] in *.
+    split; [exact Hc|]. exists e'. apply in_or_app. right. exact Ho.
+  - right. cbn [fst]. destruct HS as [A1 A2 A3 A4 A5 A6]. split; [|split].
+    + rewrite A2. rewrite wv_internal_handlers_pf. reflexivity.
+    + intro Q. apply A4. rewrite wv_internal_handlers_pi. exact Q.
+    + intro Q. apply A5. rewrite wv_internal_handlers_po. exact Q.
 Qed.
 
 Lemma leaf_finish_after_ready c x c' o :
-  WI c -> cs c = SockOpen -> cs x = cs c -> transport x = transport c -> ping_timer x = ping_timer c -> pong_timer x = pong_timer c ->
+  WI c -> cs c = SockOpen -> cs x = cs c -> ping_timer x = ping_timer c -> pong_timer x = pong_timer c ->
   finish_after_ready x = (c', o) -> Inv c' -> WI c' /\ NC c c' o.
 Proof.
-  intros W Hso E1 E2 E4 E5 Es I'. destruct W as (I & T & P & G).
+  intros W Hso E1 E4 E5 Es I'. destruct W as (I & T & P & G).
   destruct (PK_not_connected c P ltac:(congruence)) as [Q1 Q2].
-  unfold finish_after_ready in Es. set (c0 := x <| hs_timer := None |>) in *.
-  assert (Ec0 : cs c0 = SockOpen) by (cbn; congruence).
-  rewrite Ec0 in Es.
-  match type of Es with context [call_begin ?a ?b ?d ?e ?f ?g ?h] =>
-    pose proof (S_call_begin a b d e f g h) as HS; destruct (call_begin a b d e f g h) as [[[c2 o2] ex] cid] eqn:Ecb end.
-  cbn [fst snd] in HS.
-  destruct ex as [e|].
-  - match type of Es with context [finish_fail c2 e] => destruct (finish_fail c2 e) as [c3 o3] eqn:Ef end.
-    injection Es as <- <-. eapply leaf_finish_fail'; [exact Ef|exact I'].
-  - injection Es as <- <-. destruct HS as [A1 A2 A3 A4 A5 A6].
-    assert (Epf : running_f (pc (t_finish c2)) = true).
-    { rewrite A2. rewrite wv_internal_handlers_pf. reflexivity. }
-    destruct (cs c2) eqn:Ecs2.
-    5: { split; [apply WI_closed; assumption|]. intros _ _. left. unfold SF. rewrite Epf. apply orb_true_r. }
-    all: (split; [|apply NC_open; congruence]); (split; [exact I'|]); (split; [|split]).
-    all: try (right; left; exact Epf).
-    all: try (intros _; exact Epf).
-    all: intros [Q|Q]; exfalso; apply Q; [apply A4|apply A5]; rewrite ?wv_internal_handlers_pi, ?wv_internal_handlers_po; cbn; congruence.
+  pose proof (finish_after_ready_cases x ltac:(congruence)) as K. rewrite Es in K. cbn [fst snd] in K.
+  destruct K as [(Hc & Ho)|(Hr & Hp1 & Hp2)].
+  - split; [apply WI_closed; assumption|]. apply NC_clr. right. right. left. exact Ho.
+  - split.
+    + apply WI_running; [exact I'|exact Hr|apply Hp1; congruence|apply Hp2; congruence].
+    + intros _ _. left. unfold SF. rewrite Hr. apply orb_true_r.
 Qed.
 
 Lemma wv_fields x c : wv x = wv c ->
@@ -552,53 +612,339 @@ Proof.
     + set (c2 := c1 <| helper := helper_obj c1 |> <| hs_timer := Some (now c1 + HANDSHAKE_TIMEOUT) |>) in *.
       destruct (ready c2) eqn:Er.
       * (* keeps waiting, for the helper now *)
-        injection E as <- <-. cbn [set_task get_task].
-        assert (Hcs : cs (c2 <| t_finish := t_finish c2 <| pc := PF_Ready |> |>) = cs c) by (cbn; exact F1).
+        apply some_pair_inv in E. destruct E as [<- <-].
+        set (c3 := set_task c2 TFinish (get_task c2 TFinish <| pc := PF_Ready |>)) in *.
+        assert (Hcs : cs c3 = cs c) by exact F1.
+        assert (Hpf : running_f (pc (t_finish c3)) = true) by reflexivity.
+        assert (Hpi : ping_timer c3 = ping_timer c) by exact F3.
+        assert (Hpo : pong_timer c3 = pong_timer c) by exact F4.
         split.
         -- destruct (cs c) eqn:Ecs.
            5: { apply WI_closed; [exact I'|exact Hcs]. }
-           all: split; [exact I'|]; split; [|split]; unfold TK, PK, GK; cbn; rewrite ?F1, ?F2, ?F3, ?F4, ?Ecs; auto; try (intro Q; discriminate Q).
-           all: try (intro Q; destruct (PK_not_connected c P ltac:(congruence)) as [Q1 Q2]; destruct Q as [Q|Q]; contradiction).
-           all: try (intro Q; unfold PK in P; rewrite Ecs in P; apply P; exact Q).
-        -- apply NC_same; [exact Hcs|]. intros _. unfold SF. cbn. apply orb_true_r.
+           4: { apply WI_connected; [exact I'|exact Hcs]. }
+           all: assert (Hnc : cs c <> Connected) by (rewrite Ecs; discriminate);
+                destruct (PK_not_connected c P Hnc) as [Q1 Q2]; apply WI_running; [exact I'|exact Hpf|transitivity (ping_timer c); [exact Hpi|exact Q1]|transitivity (pong_timer c); [exact Hpo|exact Q2]].
+        -- apply NC_same; [exact Hcs|]. intros _. unfold SF. change (running_s (pc (t_start c3)) || running_f (pc (t_finish c3)) = true). rewrite Hpf. apply orb_true_r.
       * (* the helper is ready already *)
         destruct (JK_finish_running c I Hr) as [Q|[Q|Q]].
-        -- destruct (finish_after_ready c2) as [c3 o3] eqn:Ef. injection E as <- <-.
-           eapply (leaf_finish_after_ready c c2); [exact W|exact Q| | | | |exact Ef|exact I']; cbn; assumption.
+        -- destruct (finish_after_ready c2) as [c3 o3] eqn:Ef. apply some_pair_inv in E. destruct E as [<- <-].
+           apply (leaf_finish_after_ready c c2 c3 o3 W Q); [exact F1|exact F3|exact F4|exact Ef|exact I'].
         -- exfalso. destruct I as (_ & (_ & J2) & _). cbn in J2. rewrite Ep in J2. destruct J2; congruence.
         -- (* closed meanwhile: finish_after_ready fails *)
-           unfold finish_after_ready in E. cbn [cs set] in E.
-           assert (Hc2 : cs (c2 <| hs_timer := None |>) = Closed) by (cbn; congruence).
-           rewrite Hc2 in E. injection E as E. eapply leaf_finish_fail; [|exact I']. apply surjective_pairing_eq. symmetry. exact E.
-      * injection E as E. eapply leaf_finish_fail; [|exact I']. apply surjective_pairing_eq. symmetry. exact E.
-      * injection E as E. eapply leaf_finish_fail; [|exact I']. apply surjective_pairing_eq. symmetry. exact E.
+           unfold finish_after_ready in E.
+           assert (Hc2 : cs (c2 <| hs_timer := None |>) = Closed) by (transitivity (cs c1); [reflexivity|congruence]).
+           rewrite Hc2 in E. apply some_inj in E. eapply leaf_finish_fail; [exact E|exact I'].
+      * apply some_inj in E. eapply leaf_finish_fail; [exact E|exact I'].
+      * apply some_inj in E. eapply leaf_finish_fail; [exact E|exact I'].
     + match type of E with context [finish_fail ?x e] => destruct (finish_fail x e) as [c3 o3] eqn:Ef end.
-      injection E as <- <-. eapply leaf_finish_fail'; [exact Ef|exact I'].
+      apply some_pair_inv in E. destruct E as [<- <-]. eapply leaf_finish_fail'; [exact Ef|exact I'].
   - (* awaiting the helper *)
     destruct (must_cancel (t_finish c) || negb match ready c with RPending => true | _ => false end); [|discriminate].
     pose proof (wv_take_cancel c TFinish) as H1. destruct (take_cancel c TFinish) as [c1 mc]. cbn [fst] in H1.
     destruct (wv_fields c1 c H1) as (F1 & F2 & F3 & F4 & F5 & F6).
     assert (Hr : running_f (pc (t_finish c)) = true) by (rewrite Ep; reflexivity).
     destruct mc.
-    + injection E as E. eapply leaf_finish_fail; [|exact I']. apply surjective_pairing_eq. symmetry. exact E.
+    + apply some_inj in E. eapply leaf_finish_fail; [exact E|exact I'].
     + destruct (ready c1).
-      * injection E as E. eapply leaf_finish_fail; [|exact I']. apply surjective_pairing_eq. symmetry. exact E.
+      * apply some_inj in E. eapply leaf_finish_fail; [exact E|exact I'].
       * destruct (JK_finish_running c I Hr) as [Q|[Q|Q]].
-        -- destruct (finish_after_ready c1) as [c3 o3] eqn:Ef. injection E as <- <-.
-           eapply (leaf_finish_after_ready c c1); [exact W|exact Q|exact F1|exact F2|exact F3|exact F4|exact Ef|exact I'].
+        -- destruct (finish_after_ready c1) as [c3 o3] eqn:Ef. apply some_pair_inv in E. destruct E as [<- <-].
+           apply (leaf_finish_after_ready c c1 c3 o3 W Q); [exact F1|exact F3|exact F4|exact Ef|exact I'].
         -- exfalso. destruct I as (_ & (_ & J2) & _). cbn in J2. rewrite Ep in J2. destruct J2; congruence.
-        -- unfold finish_after_ready in E. assert (Hc2 : cs (c1 <| hs_timer := None |>) = Closed) by (cbn; congruence).
-           rewrite Hc2 in E. injection E as E. eapply leaf_finish_fail; [|exact I']. apply surjective_pairing_eq. symmetry. exact E.
-      * injection E as E. eapply leaf_finish_fail; [|exact I']. apply surjective_pairing_eq. symmetry. exact E.
-      * injection E as E. eapply leaf_finish_fail; [|exact I']. apply surjective_pairing_eq. symmetry. exact E.
+        -- unfold finish_after_ready in E.
+           assert (Hc2 : cs (c1 <| hs_timer := None |>) = Closed) by (transitivity (cs c1); [reflexivity|congruence]).
+           rewrite Hc2 in E. apply some_inj in E. eapply leaf_finish_fail; [exact E|exact I'].
+      * apply some_inj in E. eapply leaf_finish_fail; [exact E|exact I'].
+      * apply some_inj in E. eapply leaf_finish_fail; [exact E|exact I'].
   - (* awaiting the hello / login answers *)
     destruct (get_call c cid) as [kk|]; [|discriminate].
     destruct (must_cancel (t_finish c) || cfut_done (c_fut kk)); [|discriminate].
-    pose proof (wv_take_cancel c TFinish) as H1. destruct (take_cancel c TFinish) as [c1 mc]. cbn [fst] in H1.
-    pose proof (wv_call_finally c1 cid) as H2.
+    destruct (take_cancel c TFinish) as [c1 mc].
     match type of E with match ?d with _ => _ end = _ => destruct d as [|e] end.
     + destruct (check_hello_login (call_finally c1 cid) (c_responses kk)).
-      * injection E as E. eapply leaf_finish_fail; [|exact I']. apply surjective_pairing_eq. symmetry. exact E.
-      * injection E as E. eapply leaf_finish_success; [|apply surjective_pairing_eq; symmetry; exact E|exact I']. rewrite H2. exact H1.
-    + injection E as E. eapply leaf_finish_fail; [|exact I']. apply surjective_pairing_eq. symmetry. exact E.
+      * apply some_inj in E. eapply leaf_finish_fail; [exact E|exact I'].
+      * apply some_inj in E. eapply leaf_finish_success; [exact E|exact I'].
+    + apply some_inj in E. eapply leaf_finish_fail; [exact E|exact I'].
+Qed.
+
+(* ---- disconnect() ---- *)
+Lemma wv_set_task_disc c k : wv (set_task c TDisc k) = wv c. Proof. reflexivity. Qed.
+Lemma wv_finish_task_disc c r : wv (fst (finish_task c TDisc r)) = wv c. Proof. reflexivity. Qed.
+Lemma wv_set_task_call c cid k : wv (set_task c (TCall cid) k) = wv c. Proof. reflexivity. Qed.
+
+Lemma S_then_wv c x y o : Mv c x o -> wv y = wv x -> Mv c y o.
+Proof.
+  intros [A1 A2 A3 A4 A5 A6] E. unfold wv in E. injection E as E1 E2 E3 E4 E5 E6 E7 E8 E9.
+  constructor; try congruence;
+    try (intro Q; first [rewrite E6; auto; fail|rewrite E7; auto; fail|rewrite E8; auto; fail]);
+    try (destruct A6 as [(Ea & Eb & Ec & Ed)|(Na & Ca & Ha)]; [left; repeat split; congruence|right; repeat split; auto; congruence]).
+Qed.
+Lemma S_wv_then c x y o : wv x = wv c -> Mv x y o -> Mv c y o.
+Proof.
+  intros E H. apply (S_trans c x y [] o); [|exact H]. apply S_wv. exact E.
+Qed.
+
+(* disconnect_after_wait: an Mv-move (the task's own bookkeeping aside); without a completed handshake it closes and returns at once *)
+Lemma daw_spec c :
+  Mv c (fst (disconnect_after_wait c)) (snd (disconnect_after_wait c)) /\
+  (handshake_complete c = false -> In (OTaskDone TDisc TOk) (snd (disconnect_after_wait c))).
+Proof.
+  unfold disconnect_after_wait. set (c1 := c <| expected_disconnect := true |>).
+  assert (H0 : Mv c c1 []) by (apply S_wv; reflexivity).
+  assert (Ehs : handshake_complete c1 = handshake_complete c) by reflexivity.
+  destruct (handshake_complete c1) eqn:Eh.
+  - split; [|intro Q; congruence].
+    match goal with |- context [call_begin ?a ?b ?d ?e ?f ?g ?h] =>
+      pose proof (S_call_begin a b d e f g h) as HS; destruct (call_begin a b d e f g h) as [[[c2 o2] ex] cid] end.
+    cbn [fst snd] in HS. pose proof (S_trans _ _ _ _ _ H0 HS) as H1. cbn [app] in H1.
+    destruct ex as [[l| | | | |]|].
+    + pose proof (S_cleanup c2) as H2. destruct (cleanup c2) as [c3 o3]. cbn [fst snd] in *.
+      unfold finish_task. cbn [fst snd]. rewrite app_assoc. apply S_obs_r. apply (S_then_wv c c3); [exact (S_trans _ _ _ _ _ H1 H2)|reflexivity].
+    + unfold finish_task. cbn [fst snd]. apply S_obs_r. apply (S_then_wv c c2); [exact H1|reflexivity].
+    + unfold finish_task. cbn [fst snd]. apply S_obs_r. apply (S_then_wv c c2); [exact H1|reflexivity].
+    + unfold finish_task. cbn [fst snd]. apply S_obs_r. apply (S_then_wv c c2); [exact H1|reflexivity].
+    + unfold finish_task. cbn [fst snd]. apply S_obs_r. apply (S_then_wv c c2); [exact H1|reflexivity].
+    + unfold finish_task. cbn [fst snd]. apply S_obs_r. apply (S_then_wv c c2); [exact H1|reflexivity].
+    + cbn [fst snd]. apply (S_then_wv c c2); [exact H1|reflexivity].
+  - pose proof (S_cleanup c1) as H2. destruct (cleanup c1) as [c2 o2]. cbn [fst snd] in *.
+    unfold finish_task. cbn [fst snd]. split.
+    + apply S_obs_r. apply (S_then_wv c c2); [exact (S_trans _ _ _ _ _ H0 H2)|reflexivity].
+    + intros _. apply in_or_app. right. left. reflexivity.
+Qed.
+
+Lemma wake_disc_spec c c' o : wake_disc c = Some (c', o) ->
+  Mv c c' o /\ (cs c <> Closed -> cs c' = Closed -> handshake_complete c = true \/ In (OTaskDone TDisc TOk) o).
+Proof.
+  unfold wake_disc. cbn [get_task]. intro E.
+  destruct (pc (t_disc c)) eqn:Ep; try discriminate.
+  - destruct (must_cancel (t_disc c) || disc_wait_done c); [|discriminate].
+    pose proof (wv_take_cancel c TDisc) as H1. destruct (take_cancel c TDisc) as [c1 mc]. cbn [fst] in H1.
+    set (c2 := c1 <| disc_timer := None |>) in *.
+    assert (H2 : wv c2 = wv c) by (rewrite <- H1; reflexivity).
+    destruct mc.
+    + apply some_pair_inv in E. destruct E as [<- <-]. split.
+      * apply S_wv. rewrite <- H2. reflexivity.
+      * intros Hn Hc. exfalso. apply Hn. rewrite <- Hc. symmetry.
+        assert (Q : wv (set_task c2 TDisc (get_task c2 TDisc <| pc := PDone (TRaise CancelledErr) |>)) = wv c) by (rewrite <- H2; reflexivity).
+        destruct (wv_fields _ _ Q) as (F1 & _). exact F1.
+    + match type of E with context [disconnect_after_wait ?x] => set (c3 := x) in *; pose proof (daw_spec c3) as [HS HT];
+        assert (H3 : wv c3 = wv c) by (rewrite <- H2; unfold c3; destruct (finish_fut c2); [reflexivity| |reflexivity]; destruct (fatal c2); reflexivity) end.
+      destruct (disconnect_after_wait c3) as [c4 o4]. apply some_pair_inv in E. destruct E as [<- <-]. cbn [fst snd] in *.
+      split; [exact (S_wv_then c c3 c4 o4 H3 HS)|].
+      intros Hn Hc. unfold wv in H3. injection H3 as _ _ _ _ _ _ _ _ E9.
+      destruct (handshake_complete c) eqn:Eh; [left; reflexivity|right; apply HT; congruence].
+  - destruct (get_call c cid) as [kk|]; [|discriminate].
+    destruct (must_cancel (t_disc c) || cfut_done (c_fut kk)); [|discriminate].
+    pose proof (wv_take_cancel c TDisc) as H1. destruct (take_cancel c TDisc) as [c1 mc]. cbn [fst] in H1.
+    pose proof (wv_call_finally c1 cid) as H2. set (c2 := call_finally c1 cid) in *.
+    assert (H3 : wv c2 = wv c) by congruence.
+    assert (Kraise : forall e, Some (finish_task c2 TDisc (TRaise e)) = Some (c', o) ->
+              Mv c c' o /\ (cs c <> Closed -> cs c' = Closed -> handshake_complete c = true \/ In (OTaskDone TDisc TOk) o)).
+    { intros e E0. apply some_pair_inv in E0. destruct E0 as [<- <-]. split.
+      - apply S_wv. rewrite <- H3. reflexivity.
+      - intros Hn Hc. exfalso. apply Hn. rewrite <- Hc. symmetry.
+        assert (Q : wv (set_task c2 TDisc (get_task c2 TDisc <| pc := PDone (TRaise e) |>)) = wv c) by (rewrite <- H3; reflexivity).
+        destruct (wv_fields _ _ Q) as (F1 & _). exact F1. }
+    assert (Kok : (let '(c3, o3) := cleanup c2 in let '(c4, o2) := finish_task c3 TDisc TOk in Some (c4, o3 ++ o2)) = Some (c', o) ->
+              Mv c c' o /\ (cs c <> Closed -> cs c' = Closed -> handshake_complete c = true \/ In (OTaskDone TDisc TOk) o)).
+    { pose proof (S_cleanup c2) as HS. destruct (cleanup c2) as [c3 o3]. cbn [fst snd] in HS. unfold finish_task. intro E0.
+      apply some_pair_inv in E0. destruct E0 as [<- <-]. split.
+      - apply S_obs_r. apply (S_then_wv c c3); [exact (S_wv_then c c2 c3 o3 H3 HS)|reflexivity].
+      - intros _ _. right. apply in_or_app. right. left. reflexivity. }
+    destruct mc.
+    + exact (Kraise _ E).
+    + destruct (deliver_cfut (c_fut kk)) as [|[l| | | | |]]; first [exact (Kok E)|exact (Kraise _ E)].
+Qed.
+
+(* ------------------------------------------------------------------------------------------------------------------
+   every label *)
+Lemma wv_step c c' o : WI c -> Inv c' -> wv c' = wv c -> WI c' /\ NC c c' o.
+Proof.
+  intros W I' E. destruct (wv_fields c' c E) as (F1 & F2 & F3 & F4 & F5 & F6). split.
+  - apply (frame_WI c); [exact W|exact I'|]. unfold eqv. auto.
+  - apply NC_same; [exact F1|]. unfold SF. rewrite F5, F6. auto.
+Qed.
+
+Theorem step_W c l c' o : WI c -> step c l = Some (c', o) -> l <> LForce -> WI c' /\ NC c c' o.
+Proof.
+  intros W E Hl. pose proof W as (I & T & P & G).
+  destruct (step_ok c l c' o E I) as [I' _].
+  destruct l; cbn [step] in E.
+  - (* LStart *)
+    destruct (cs c) eqn:Ecs.
+    + destruct (pc (t_start c)) eqn:Ep; try discriminate. apply some_pair_inv in E. destruct E as [<- <-].
+      split.
+      * apply (frame_WI c); [exact W|exact I'|]. unfold eqv. repeat split; try reflexivity; try exact Ecs.
+      * apply NC_open. intro Hc. change (cs c = Closed) in Hc. congruence.
+    + apply some_pair_inv in E. destruct E as [<- <-]. apply wv_step; [exact W|exact I'|reflexivity].
+    + apply some_pair_inv in E. destruct E as [<- <-]. apply wv_step; [exact W|exact I'|reflexivity].
+    + apply some_pair_inv in E. destruct E as [<- <-]. apply wv_step; [exact W|exact I'|reflexivity].
+    + apply some_pair_inv in E. destruct E as [<- <-]. apply wv_step; [exact W|exact I'|reflexivity].
+  - (* LFinish *)
+    destruct (cs c) eqn:Ecs.
+    2: { destruct (pc (t_finish c)) eqn:Ep; try discriminate. apply some_pair_inv in E. destruct E as [<- <-].
+         destruct (PK_not_connected c P ltac:(congruence)) as [Q1 Q2]. split.
+         - apply WI_running; [exact I'|reflexivity|exact Q1|exact Q2].
+         - apply NC_open. intro Hc. change (cs c = Closed) in Hc. congruence. }
+    all: apply some_pair_inv in E; destruct E as [<- <-]; apply wv_step; [exact W|exact I'|reflexivity].
+  - (* LDisconnect *)
+    destruct (pc (t_disc c)) eqn:Ep; try discriminate.
+    destruct (finish_fut c) eqn:Ef.
+    2: { apply some_pair_inv in E. destruct E as [<- <-]. apply wv_step; [exact W|exact I'|reflexivity]. }
+    all: apply some_inj in E;
+      match type of E with disconnect_after_wait ?x = _ => pose proof (daw_spec x) as [HS HT]; rewrite E in HS, HT; cbn [fst snd] in HS, HT;
+        assert (H0 : wv x = wv c) by reflexivity end;
+      apply S_step; [exact W|exact I'|eapply S_wv_then; [exact H0|exact HS]|];
+      intros Hn Hc; destruct (handshake_complete c) eqn:Eh; [auto|right; right; right; right; apply HT; exact Eh].
+  - (* LForce *) contradiction.
+  - (* LCallStart *)
+    set (c0 := c <| call_tasks := call_tasks c ++ [(next_cid c, task0 <| pc := PC_Wait (next_cid c) |>)] |>) in *.
+    match type of E with context [call_begin c0 ?a ?b ?d ?e ?f ?g] =>
+      pose proof (S_call_begin c0 a b d e f g) as HS; destruct (call_begin c0 a b d e f g) as [[[c1 o1] ex] cid'] eqn:Ecb end.
+    cbn [fst snd] in HS. assert (H0 : wv c0 = wv c) by reflexivity.
+    assert (Hen : cs c <> Closed -> cs c1 = Closed -> handshake_complete c = true).
+    { intros Hn Hc. destruct (handshake_complete c) eqn:Eh; [reflexivity|]. exfalso.
+      unfold call_begin in Ecb. rewrite (send_nohs c0 send) in Ecb by exact Eh. apply pair_inv in Ecb. destruct Ecb as [Ecb _].
+      apply pair_inv in Ecb. destruct Ecb as [Ecb _]. apply pair_inv in Ecb. destruct Ecb as [<- _]. apply Hn. exact Hc. }
+    destruct ex.
+    + unfold finish_task in E. apply some_pair_inv in E. destruct E as [<- <-].
+      apply S_step; [exact W|exact I'| |].
+      * apply S_obs_r. apply (S_then_wv c c1); [exact (S_wv_then c c0 c1 o1 H0 HS)|reflexivity].
+      * intros Hn Hc. right. right. right. left. apply Hen; [exact Hn|exact Hc].
+    + apply some_pair_inv in E. destruct E as [<- <-].
+      apply S_step; [exact W|exact I'|exact (S_wv_then c c0 c1 o1 H0 HS)|].
+      intros Hn Hc. right. right. right. left. apply Hen; [exact Hn|exact Hc].
+  - (* LSend *)
+    pose proof (S_send_messages c tys) as HS. destruct (send_messages c tys) as [[c1 o1] ex] eqn:Es. cbn [fst snd] in HS.
+    apply some_pair_inv in E. destruct E as [<- <-].
+    apply S_step; [exact W|exact I'|apply S_obs_r; exact HS|].
+    intros Hn Hc. right. right. right. left. destruct (handshake_complete c) eqn:Eh; [reflexivity|]. exfalso.
+    rewrite (send_nohs c tys Eh) in Es. apply pair_inv in Es. destruct Es as [Es _]. apply pair_inv in Es. destruct Es as [<- _]. contradiction.
+  - (* LCancel *)
+    destruct (task_running (get_task c t)).
+    + apply some_pair_inv in E. destruct E as [<- <-]. apply wv_step; [exact W|exact I'|]. rewrite wv_cancel_task. destruct t; reflexivity.
+    + apply some_pair_inv in E. destruct E as [<- <-]. apply wv_step; [exact W|exact I'|reflexivity].
+  - (* LSub *) apply some_pair_inv in E. destruct E as [<- <-]. apply wv_step; [exact W|exact I'|apply wv_add_handler].
+  - (* LUnsub *) apply some_pair_inv in E. destruct E as [<- <-]. apply wv_step; [exact W|exact I'|reflexivity].
+  - (* LResolveDone *)
+    destruct (pc (t_start c)); try discriminate; destruct (do_connect c); try discriminate;
+      apply some_pair_inv in E; destruct E as [<- <-]; apply wv_step; [exact W|exact I'|reflexivity].
+  - (* LTcpDone *)
+    destruct (pc (t_start c)); try discriminate; destruct (do_connect c); try discriminate;
+      apply some_pair_inv in E; destruct E as [<- <-]; apply wv_step; [exact W|exact I'|reflexivity].
+  - (* LMade *)
+    destruct (transport c); try discriminate. destruct (made c); try discriminate.
+    destruct (noise c); apply some_pair_inv in E; destruct E as [<- <-]; apply wv_step; [exact W|exact I'|reflexivity|exact W|exact I'|reflexivity].
+  - (* LMadeWaiter *)
+    destruct (made_waiter c); try discriminate; apply some_pair_inv in E; destruct E as [<- <-]; apply wv_step; [exact W|exact I'|reflexivity|exact W|exact I'|reflexivity].
+  - (* LHelperReady *)
+    destruct (ready c); try discriminate. destruct (made c); try discriminate. destruct (transport c) eqn:Et; try discriminate.
+    destruct r as [e|].
+    + pose proof (S_helper_error c e) as HS. destruct (helper_error c e) as [c1 o1]. cbn [fst snd] in HS.
+      assert (Hen : cs c <> Closed -> cs c' = Closed ->
+                    transport c <> TNone \/ ping_timer c <> None \/ pong_timer c <> None \/ handshake_complete c = true \/ In (OTaskDone TDisc TOk) o)
+        by (intros _ _; left; rewrite Et; discriminate).
+      destruct (transport c1) eqn:Et1; apply some_pair_inv in E; destruct E as [<- <-]; (apply S_step; [exact W|exact I'| |exact Hen]).
+      * rewrite app_nil_r. exact HS.
+      * apply (S_trans c c1 _ o1 [OTransportClose] HS). apply S_transport; [rewrite Et1; discriminate|discriminate].
+      * rewrite app_nil_r. exact HS.
+      * rewrite app_nil_r. exact HS.
+    + apply some_pair_inv in E. destruct E as [<- <-]. apply wv_step; [exact W|exact I'|reflexivity].
+  - (* LData *)
+    destruct (transport c) eqn:Et; try discriminate. destruct (made c); try discriminate.
+    pose proof (S_data_loop items c) as HS. destruct (data_loop c items) as [[c1 o1] ex]. cbn [fst snd] in HS.
+    assert (Hen : cs c <> Closed -> cs c' = Closed ->
+                  transport c <> TNone \/ ping_timer c <> None \/ pong_timer c <> None \/ handshake_complete c = true \/ In (OTaskDone TDisc TOk) o)
+      by (intros _ _; left; rewrite Et; discriminate).
+    destruct ex as [e|].
+    + destruct (transport c1) eqn:Et1; apply some_pair_inv in E; destruct E as [<- <-]; (apply S_step; [exact W|exact I'| |exact Hen]).
+      * apply S_obs_r. exact HS.
+      * apply (S_trans c c1 _ o1 [ORaise e] HS). apply S_transport; [rewrite Et1; discriminate|discriminate].
+      * apply (S_trans c c1 _ o1 [ORaise e] HS). apply S_transport; [rewrite Et1; discriminate|discriminate].
+      * apply S_obs_r. exact HS.
+    + apply some_pair_inv in E. destruct E as [<- <-]. apply S_step; [exact W|exact I'|exact HS|exact Hen].
+  - (* LEof *)
+    destruct (transport c) eqn:Et; try discriminate. destruct (made c); try discriminate.
+    pose proof (S_helper_error c (Lib LSocketClosed)) as HS. destruct (helper_error c (Lib LSocketClosed)) as [c1 o1]. cbn [fst snd] in HS.
+    assert (Hen : cs c <> Closed -> cs c' = Closed ->
+                  transport c <> TNone \/ ping_timer c <> None \/ pong_timer c <> None \/ handshake_complete c = true \/ In (OTaskDone TDisc TOk) o)
+      by (intros _ _; left; rewrite Et; discriminate).
+    destruct (transport c1) eqn:Et1; apply some_pair_inv in E; destruct E as [<- <-]; (apply S_step; [exact W|exact I'| |exact Hen]).
+    + exact HS.
+    + apply (S_trans c c1 _ o1 [OTransportClose] HS). apply S_transport; [rewrite Et1; discriminate|discriminate].
+    + exact HS.
+    + exact HS.
+  - (* LLost *)
+    destruct (transport c) eqn:Et; try discriminate. apply some_pair_inv in E. destruct E as [<- <-].
+    apply S_step; [exact W|exact I'|apply S_transport; [rewrite Et; discriminate|discriminate]|].
+    intros _ _. left. rewrite Et. discriminate.
+  - (* LWriteFails *) apply some_pair_inv in E. destruct E as [<- <-]. apply wv_step; [exact W|exact I'|reflexivity].
+  - (* LAdvance *)
+    destruct (Z.leb (now c) t && forallb (fun d => Z.leb t d) (armed_deadlines c)); [|discriminate].
+    apply some_pair_inv in E. destruct E as [<- <-]. apply wv_step; [exact W|exact I'|reflexivity].
+  - (* LWake *)
+    destruct t.
+    + exact (wake_start_W c c' o W E I').
+    + exact (wake_finish_W c c' o W E I').
+    + destruct (wake_disc_spec c c' o E) as [HS HT]. apply S_step; [exact W|exact I'|exact HS|].
+      intros Hn Hc. destruct (HT Hn Hc) as [Q|Q]; auto.
+    + unfold wake_call in E. destruct (pc (get_task c (TCall cid))); try discriminate.
+      destruct (get_call c cid) as [kk|]; [|discriminate].
+      destruct (must_cancel (get_task c (TCall cid)) || cfut_done (c_fut kk)); [|discriminate].
+      pose proof (wv_take_cancel c (TCall cid)) as H1. destruct (take_cancel c (TCall cid)) as [c1 mc]. cbn [fst] in H1.
+      pose proof (wv_call_finally c1 cid) as H2. unfold finish_task in E. apply some_pair_inv in E. destruct E as [<- <-].
+      apply wv_step; [exact W|exact I'|]. rewrite <- H1, <- H2. reflexivity.
+  - (* LIntr *)
+    destruct is_start.
+    + destruct (start_fut c); try discriminate. destruct (intr_start c); try discriminate;
+        apply some_pair_inv in E; destruct E as [<- <-]; (apply wv_step; [exact W|exact I'|]); [rewrite wv_cancel_task|]; reflexivity.
+    + destruct (finish_fut c); try discriminate. destruct (intr_finish c); try discriminate;
+        apply some_pair_inv in E; destruct E as [<- <-]; (apply wv_step; [exact W|exact I'|]); [rewrite wv_cancel_task|]; reflexivity.
+  - (* LDiscWaitDone *)
+    destruct (pc (t_disc c)); try discriminate; destruct (finish_fut c); try discriminate; destruct (disc_wait_done c); try discriminate;
+      apply some_pair_inv in E; destruct E as [<- <-]; apply wv_step; [exact W|exact I'|reflexivity|exact W|exact I'|reflexivity|exact W|exact I'|reflexivity].
+  - (* LConnLostCb *)
+    destruct (transport c) as [| |e|] eqn:Et; try discriminate.
+    set (c1 := c <| transport := TLost |>) in *.
+    assert (H0 : Mv c c1 []) by (apply S_transport; [rewrite Et; discriminate|discriminate]).
+    assert (Hen : cs c <> Closed -> cs c' = Closed ->
+                  transport c <> TNone \/ ping_timer c <> None \/ pong_timer c <> None \/ handshake_complete c = true \/ In (OTaskDone TDisc TOk) o)
+      by (intros _ _; left; rewrite Et; discriminate).
+    destruct (made c1).
+    + apply some_inj in E. match type of E with helper_error c1 ?x = _ => pose proof (S_helper_error c1 x) as HS; rewrite E in HS; cbn [fst snd] in HS end.
+      apply S_step; [exact W|exact I'|exact (S_trans _ _ _ _ _ H0 HS)|exact Hen].
+    + apply some_pair_inv in E. destruct E as [<- <-]. apply S_step; [exact W|exact I'|exact H0|exact Hen].
+  - (* LTimer *)
+    destruct k.
+    + (* ping *)
+      destruct (due (ping_timer c) c) eqn:Edue; [|discriminate].
+      assert (Hpi : ping_timer c <> None) by (unfold due in Edue; destruct (ping_timer c); [discriminate|discriminate]).
+      assert (Hconn : cs c = Connected) by (apply P; left; exact Hpi).
+      set (c0 := c <| ping_timer := None |>) in *.
+      assert (H0 : Mv c c0 []) by (constructor; cbn; auto; left; auto).
+      destruct (send_pending_ping c0).
+      * pose proof (S_send_messages c0 [T_PING_REQ]) as HS. pose proof (send_messages_spec c0 [T_PING_REQ]) as HSp.
+        destruct (send_messages c0 [T_PING_REQ]) as [[c1 o1] ex]. cbn [fst snd] in HS. destruct HSp as [_ HN].
+        destruct ex.
+        -- apply some_pair_inv in E. destruct E as [<- <-]. apply S_step; [exact W|exact I'|apply S_obs_r; exact (S_trans _ _ _ _ _ H0 HS)|].
+           intros _ _. right. left. exact Hpi.
+        -- destruct (HN eq_refl) as [-> _].
+           assert (Hc' : cs c' = Connected).
+           { destruct (pong_timer c0); apply some_pair_inv in E; destruct E as [<- _]; exact Hconn. }
+           split; [apply WI_connected; assumption|apply NC_open; congruence].
+      * apply some_pair_inv in E. destruct E as [<- <-].
+        split; [apply WI_connected; [exact I'|exact Hconn]|apply NC_open; change (cs c <> Closed); congruence].
+    + (* pong *)
+      destruct (due (pong_timer c) c) eqn:Edue; [|discriminate].
+      assert (Hpo : pong_timer c <> None) by (unfold due in Edue; destruct (pong_timer c); [discriminate|discriminate]).
+      apply some_inj in E. pose proof (S_report_fatal c (Lib LPingFailed)) as HS. rewrite E in HS. cbn [fst snd] in HS.
+      apply S_step; [exact W|exact I'|exact HS|]. intros _ _. right. right. left. exact Hpo.
+    + destruct (due (hs_timer c) c); [|discriminate]. apply some_pair_inv in E. destruct E as [<- <-].
+      apply wv_step; [exact W|exact I'|]. destruct (ready c); reflexivity.
+    + destruct (due (conn_timer c) c); [|discriminate]. apply some_pair_inv in E. destruct E as [<- <-].
+      apply wv_step; [exact W|exact I'|]. rewrite wv_cancel_task. reflexivity.
+    + destruct (get_call c cid) as [kk|]; [|discriminate]. destruct (due (c_timer kk) c); [|discriminate].
+      apply some_pair_inv in E. destruct E as [<- <-]. apply wv_step; [exact W|exact I'|reflexivity].
+    + destruct (pc (t_disc c)); try discriminate. destruct (due (disc_timer c) c); [|discriminate].
+      apply some_pair_inv in E. destruct E as [<- <-]. apply wv_step; [exact W|exact I'|reflexivity].
 Qed.
